@@ -222,6 +222,20 @@ class World:
         return f"w{self.counter}"
 
 
+def npint(rng, x, p=0.3):
+    """the same integer, sometimes as a NumPy integer scalar of a width that just holds it (indices and sizes are
+    SupportsIndex: a NumPy scalar must behave exactly like the Python int)"""
+    import numpy as np
+    if x is None or isinstance(x, bool) or not isinstance(x, int) or rng.random() > p:
+        return x
+    cands = [np.int64]
+    for t in (np.int8, np.uint8, np.int16, np.uint16, np.int32, np.uint32, np.uint64):
+        info = np.iinfo(t)
+        if info.min <= x <= info.max:
+            cands.append(t)
+    return rng.choice(cands)(x)
+
+
 def opt(x):
     return "-" if x is None else str(x)
 
@@ -292,15 +306,15 @@ def gen_history(world: World, kind: str, length: int, weights=None, irregular_bi
                 tsp = rand_timing(cnt or 0, allow_bad=not must_succeed)
                 timing, ttok = world.mk_timing(tsp)
                 fill = rng.choice([0, 0, 1]) if digital else 0
-                kw = dict(start_index=st, capacity=cap, extended_properties=props)
+                kw = dict(start_index=npint(rng, st), capacity=npint(rng, cap), extended_properties=props)
                 if kind != "spectrum":
                     kw["timing"] = timing
                 if kind in ("analog", "complex"):
                     kw["scale_mode"] = world.mk_scale(scale)
                 if digital:
-                    thunk = lambda: CLS(cnt, cols, world.DT[t], fill if fill else None, **kw)
+                    thunk = lambda cnt=npint(rng, cnt), cols=npint(rng, cols): CLS(cnt, cols, world.DT[t], fill if fill else None, **kw)
                 else:
-                    thunk = lambda: CLS(cnt, world.DT[t], **kw)
+                    thunk = lambda cnt=npint(rng, cnt): CLS(cnt, world.DT[t], **kw)
                 line = (f"wnew {name} {kind} {t} {1 if t in SUPPORTED[kind] else 0} {opt(cnt)} {opt(cols if digital else None)} "
                         f"{opt(st)} {opt(cap)} {fill} {props_token(props)} {ttok} {scale}")
             else:
@@ -319,7 +333,7 @@ def gen_history(world: World, kind: str, length: int, weights=None, irregular_bi
                 ncnt = (m - (st or 0)) if cnt is None else cnt
                 tsp = rand_timing(max(0, ncnt), allow_bad=not must_succeed)
                 timing, ttok = world.mk_timing(tsp)
-                kw = dict(start_index=st, sample_count=cnt, extended_properties=props)
+                kw = dict(start_index=npint(rng, st), sample_count=npint(rng, cnt), extended_properties=props)
                 if kind != "spectrum":
                     kw["timing"] = timing
                 if kind in ("analog", "complex"):
@@ -370,9 +384,9 @@ def gen_history(world: World, kind: str, length: int, weights=None, irregular_bi
             if kind != "spectrum":
                 if irregular:
                     c = rng.random()
-                    last = int(world.timing_render(o).split(":")[2].split(",")[-1]) if o.sample_count and "_" not in world.timing_render(o).split(":")[2] else 0
-                    first = int(world.timing_render(o).split(":")[2].split(",")[0]) if o.sample_count and "_" not in world.timing_render(o).split(":")[2] else 0
-                    desc = o.sample_count > 1 and first > last
+                    last = int(world.timing_render(o).split(":")[2].split(",")[-1]) if int(o.sample_count) and "_" not in world.timing_render(o).split(":")[2] else 0
+                    first = int(world.timing_render(o).split(":")[2].split(",")[0]) if int(o.sample_count) and "_" not in world.timing_render(o).split(":")[2] else 0
+                    desc = int(o.sample_count) > 1 and first > last
                     mm = m if c < 0.75 else max(0, m + rng.choice([-1, 1]))
                     if c < 0.9:
                         ts = [last + (-(i + 1) if desc else (i + 1)) * rng.choice([0, 1, 2]) for i in range(mm)]
@@ -392,7 +406,7 @@ def gen_history(world: World, kind: str, length: int, weights=None, irregular_bi
                       args_state=lambda: (arr.tobytes(), None if tsreal is None else list(tsreal)))
         elif op == "appw":
             srcs = []
-            if irregular and o.sample_count:
+            if irregular and int(o.sample_count):
                 tr = world.timing_render(o).split(":")[2]
                 hint["junction"] = int(tr.split(",")[-1]) if "_" not in tr else None
             for _i in range(rng.choice([1, 1, 2, 3])):
@@ -426,16 +440,16 @@ def gen_history(world: World, kind: str, length: int, weights=None, irregular_bi
                 world.expect[-1] = "ok " + rec["after"][main] + " warn=" + ("_" if not rec["warn"] else ",".join(rec["warn"]))
         elif op == "load":
             m = rng.choice([0, 1, 2, 4, 6])
-            sub_range = irregular and o.sample_count >= 2 and rng.random() < 0.35
+            sub_range = irregular and int(o.sample_count) >= 2 and rng.random() < 0.35
             if sub_range:
-                m = o.sample_count          # as many array elements as timestamps, of which only a part is loaded
+                m = int(o.sample_count)          # as many array elements as timestamps, of which only a part is loaded
             t2 = tag if rng.random() < max(0.92, valid_bias) else rng.choice(SUPPORTED[kind])
             cols2 = ncols if rng.random() < max(0.9, valid_bias) else rng.randint(1, 3)
             nd = (2 if rng.random() < 0.5 or cols2 != 1 else 1) if digital else (1 if rng.random() < 0.93 else 2)
             arr = world.mk_array(t2, world.mk_values(t2, m, cols2, digital), nd, rng.choice(["owned", "owned", "view"]))
             cp = rng.random() < 0.6
-            st = rng.choice([None, None, None, 0, 0, 1, 2, m, m + 1, -1])
-            cnt = rng.choice([None, None, None, 0, 1, 2, max(0, m - (st or 0)), max(0, m - (st or 0)), m + 1, o.sample_count, -1])
+            st = rng.choice([None, None, None, 0, 0, 1, 2, m, m + 1, -1, -3])
+            cnt = rng.choice([None, None, None, 0, 1, 2, max(0, m - (st or 0)), max(0, m - (st or 0)), m + 1, int(o.sample_count), -1])
             if rng.random() < valid_bias:
                 st = rng.choice([None, 0, min(1, m)])
                 cnt = rng.choice([None, None, max(0, m - (st or 0))])
@@ -443,30 +457,30 @@ def gen_history(world: World, kind: str, length: int, weights=None, irregular_bi
                 st = rng.choice([0, 1])
                 cnt = rng.choice([m - st - 1, m - st - 1, None if st else m - 1])
             world.run(f"wload {main} {world.arr_token(arr)} {1 if cp else 0} {opt(st)} {opt(cnt)}",
-                      lambda: o.load_data(arr, copy=cp, start_index=st, sample_count=cnt), main, kind,
+                      lambda st=npint(rng, st), cnt=npint(rng, cnt): o.load_data(arr, copy=cp, start_index=st, sample_count=cnt), main, kind,
                       args_state=lambda: arr.tobytes())
         elif op == "setcount":
-            v = rng.choice([0, 1, o.sample_count, o.sample_count + 1, o.capacity - o.start_index, o.capacity + 1, -1,
-                            max(0, o.sample_count - 1)])
-            def th():
+            v = rng.choice([0, 1, int(o.sample_count), int(o.sample_count) + 1, int(o.capacity) - int(o.start_index), int(o.capacity) + 1, -1,
+                            max(0, int(o.sample_count) - 1)])
+            def th(v=npint(rng, v)):
                 o.sample_count = v
             world.run(f"wsetcount {main} {v}", th, main, kind)
         elif op == "setcap":
-            v = rng.choice([o.capacity, o.capacity + 2, o.start_index + o.sample_count, max(0, o.start_index + o.sample_count - 1),
-                            -1, o.capacity + 7, 0])
+            v = rng.choice([int(o.capacity), int(o.capacity) + 2, int(o.start_index) + int(o.sample_count), max(0, int(o.start_index) + int(o.sample_count) - 1),
+                            -1, int(o.capacity) + 7, 0])
             if rng.random() < valid_bias:
-                v = o.capacity + rng.choice([1, 2, 5])
-            def th():
+                v = int(o.capacity) + rng.choice([1, 2, 5])
+            def th(v=npint(rng, v)):
                 o.capacity = v
             world.run(f"wsetcap {main} {v}", th, main, kind)
         elif op == "settiming" and kind != "spectrum":
-            tsp = rand_timing(o.sample_count) or ("N", 0)
+            tsp = rand_timing(int(o.sample_count)) or ("N", 0)
             timing, ttok = world.mk_timing(tsp)
             def th():
                 o.timing = timing
             world.run(f"wsettiming {main} {ttok}", th, main, kind)
         elif op == "write":
-            i = rng.choice([0, -1, o.sample_count - 1, o.sample_count, rng.randint(-2, max(1, o.sample_count))])
+            i = rng.choice([0, -1, int(o.sample_count) - 1, int(o.sample_count), rng.randint(-2, max(1, int(o.sample_count)))])
             row = world.mk_values(tag, 1, ncols, digital)[0]
             def th():
                 view = o.raw_data if kind in ("analog", "complex") else o.data
@@ -478,12 +492,12 @@ def gen_history(world: World, kind: str, length: int, weights=None, irregular_bi
                     view[i] = row[0]
             world.run(f"wwrite {main} {i} {';'.join(map(str, row))}", th, main, kind)
         elif op == "get":
-            s = rng.choice([None, 0, 1, o.sample_count, o.sample_count + 1, -1])
-            n = rng.choice([None, 0, 1, max(0, o.sample_count - (s or 0)), o.sample_count + 1, -1])
+            s = rng.choice([None, 0, 1, int(o.sample_count), int(o.sample_count) + 1, -1])
+            n = rng.choice([None, 0, 1, max(0, int(o.sample_count) - (s or 0)), int(o.sample_count) + 1, -1])
             getter = o.get_raw_data if kind in ("analog", "complex") else o.get_data
             holder = {}
             def th():
-                holder["r"] = getter(s, n)
+                holder["r"] = getter(npint(rng, s), npint(rng, n))
                 return holder["r"]
             def extra():
                 if "r" not in holder:
